@@ -116,4 +116,29 @@ example (ext : Ext) :
 #print axioms C05_bounds
 #print axioms C19_count
 
+/-! ### Message prefix
+
+"… whose messages start with `cors: `".  The model carries no message texts; the regenerated fact
+`cfgerrors_messageTemplates` lists, for every `Error() string` method of package cfgerrors, the constant each of its
+`return`s starts from (a literal, or the constant format of `fmt.Sprintf` — whose output begins with the format's
+text up to its first verb).  Every one of them begins with `cors: `, none is of another shape, and all eight exported
+error types are there.  (The correspondence harness checks the same on every error value it sees; this covers the
+arms no configuration reaches, such as the `default:` of `IncompatibleOriginPatternError.Error`.) -/
+
+def corsPrefix : Bytes := Spec.b "cors: "
+
+/-- The text after `Type|`. -/
+def templateText (e : Bytes) : Bytes := (e.dropWhile (· != 124)).drop 1
+
+/-- **C05 (messages).** -/
+theorem C05_message_prefix :
+    (∀ e ∈ Facts.cfgerrors_messageTemplates, (templateText e).take corsPrefix.length = corsPrefix) ∧
+    (∀ ty ∈ [Spec.b "*UnacceptableOriginPatternError", Spec.b "*UnacceptableMethodError", Spec.b "*UnacceptableHeaderNameError",
+        Spec.b "*MaxAgeOutOfBoundsError", Spec.b "*PreflightSuccessStatusOutOfBoundsError", Spec.b "*IncompatibleOriginPatternError",
+        Spec.b "*IncompatiblePrivateNetworkAccessModesError", Spec.b "*IncompatibleWildcardResponseHeaderNameError"],
+      ∃ e ∈ Facts.cfgerrors_messageTemplates, e.take ty.length = ty ∧ (e.drop ty.length).head? = some 124) := by
+  decide +kernel
+
+#print axioms C05_message_prefix
+
 end Cors
